@@ -320,6 +320,28 @@ func roundTripEnv(c *mon.Case, b *builtEnv) bool {
 			good = false
 		}
 	}
+	// the recipient list the parser reports names exactly the intended recipients
+	if p, err := pkcs7.Parse(b.der); err == nil {
+		var ris []pkcs7.RecipientInfo
+		if c.Call("GetRecipients", func() { ris, err = p.GetRecipients() }) {
+			if err != nil || len(ris) != len(b.rcpts) {
+				c.Fail("mismatch", "GetRecipients: %d entries, err %v; want %d; %v", len(ris), err, len(b.rcpts), s)
+			} else {
+				for i, e := range b.rcpts {
+					found := false
+					for _, ri := range ris {
+						if ri.SerialNumber != nil && ri.SerialNumber.Cmp(e.cert.SerialNumber) == 0 && bytes.Equal(ri.RawIssuer, e.cert.RawIssuer) ||
+							len(ri.SubjectKeyIdentifier) > 0 && bytes.Equal(ri.SubjectKeyIdentifier, e.cert.SubjectKeyId) {
+							found = true
+						}
+					}
+					if !found {
+						c.Fail("mismatch", "GetRecipients does not name recipient %d (%v); %v", i, e, s)
+					}
+				}
+			}
+		}
+	}
 	if s.isSignEnv() && len(b.rcpts) == 1 {
 		var pt []byte
 		var err error
